@@ -145,9 +145,14 @@ Proof.
   destruct l as [|i t]; [constructor|]. cbn [lins_str flat_map]. unfold lin_str.
   destruct (l_open i); cbn [app]; rewrite <- ?app_assoc; cbn [app]; constructor.
 Qed.
-Lemma cont_stopper k : cont k -> exists c tl, k = c :: tl /\ stopper c /\ c <> "|"%char
+(** what the look-ahead of one node needs to know about the text behind the item: it starts with a
+    character that ends the ring scan and the count (also true of a further ")") *)
+Definition stopk (k : pystr) : Prop := exists c tl, k = c :: tl /\ stopper c /\ c <> "|"%char
                                    /\ str_in [c] fnc_eon = true /\ sto_mem c = false.
+Lemma cont_stopper k : cont k -> stopk k.
 Proof. intros [| |]; eexists; eexists; (split; [reflexivity|]); repeat split; discriminate. Qed.
+Lemma close_stopper z : stopk (")"%char :: z).
+Proof. eexists; eexists; (split; [reflexivity|]); repeat split; discriminate. Qed.
 
 (** ** the look-ahead of one node: ring scan result and bond order (lines 150-200) *)
 Definition bond_expr (rest : pystr) (rdx : nat) : res Z :=
@@ -222,7 +227,7 @@ Qed.
 Definition bo0_of (i : lin) : Z := match l_mult i with Some _ => default_bond_order | None => oord (l_bond i) end.
 
 (** look-ahead of a flat item [i] followed by [k] *)
-Lemma scan_lin fo i k cur cyc : lin_ok fo i = true -> cont k ->
+Lemma scan_lin fo i k cur cyc : lin_ok fo i = true -> stopk k ->
   exists x rdx, ring_scan cur (lin_tail_str i ++ k) 0 (clean_st cyc []) = Ok (x, rdx)
                 /\ (r_cyc x, r_ces x) = spec_rings (l_rings i) cur (cyc, [])
                 /\ bond_expr (lin_tail_str i ++ k) rdx = Ok (bo0_of i).
@@ -237,7 +242,7 @@ Proof.
     assert (Hx : exists c tl, close_str (l_close i) ++ k = c :: tl /\ stopper c).
     { destruct (l_close i) as [a|]; cbn [close_str app].
       - eexists _, _. split; [reflexivity|]. repeat split.
-      - destruct (cont_stopper k Hk) as (c & tl & -> & Hs & _). eexists _, _. split; [reflexivity|assumption]. }
+      - destruct Hk as (c & tl & -> & Hs & _). eexists _, _. split; [reflexivity|assumption]. }
     destruct Hx as (c & tl & Ex & Hs).
     rewrite <- !app_assoc. rewrite Ex.
     destruct (ring_scan_item cur (l_rings i) (l_bond i) c tl cyc Hr Hs) as (x & E & S).
@@ -293,11 +298,11 @@ Proof.
   rewrite (int_body_digits r Hr d). reflexivity.
 Qed.
 
-Lemma close_head c k : cont k -> exists h tl, close_str c ++ k = h :: tl /\ str_in [h] fnc_eon = true /\ h <> "|"%char /\ sto_mem h = false.
+Lemma close_head c k : stopk k -> exists h tl, close_str c ++ k = h :: tl /\ str_in [h] fnc_eon = true /\ h <> "|"%char /\ sto_mem h = false.
 Proof.
   intros Hk. destruct c as [a|]; cbn [close_str app].
   - eexists _, _. split; [reflexivity|]. split; [reflexivity|]. split; [discriminate|reflexivity].
-  - destruct (cont_stopper k Hk) as (h & tl & -> & _ & Hb & Hin & Hm). eexists _, _. split; [reflexivity|]. repeat split; assumption.
+  - destruct Hk as (h & tl & -> & _ & Hb & Hin & Hm). eexists _, _. split; [reflexivity|]. repeat split; assumption.
 Qed.
 Lemma digit_not_eon d : (d < 10)%nat -> str_in [digit_char d] fnc_eon = false.
 Proof. intros H. do 10 (destruct d as [|d]; [reflexivity|]). lia. Qed.
@@ -313,7 +318,7 @@ Proof.
     rewrite digit_not_eon by assumption. f_equal. now apply IH.
 Qed.
 
-Lemma nmon_lin fo i k : lin_ok fo i = true -> cont k ->
+Lemma nmon_lin fo i k : lin_ok fo i = true -> stopk k ->
   nmon_expr (lin_tail_str i ++ k) (bo0_of i) = Ok (Z.of_nat (mult_val (l_mult i)), oord (l_bond i)).
 Proof.
   intros Hok Hk. destruct (lin_ok_parts fo i Hok) as (_ & Hr & Hm & Hc).
@@ -614,10 +619,10 @@ Proof.
     - eexists. rewrite Rbr, Rba. split; reflexivity. }
   destruct Hopened as (rc & -> & Hrc0). cbn [bind].
   (* 150-200 *)
-  destruct (scan_lin fo i k (s_current st) (s_cycle st) Hok Hk) as (xr & rdx & Escan & Sr & Ebond).
+  destruct (scan_lin fo i k (s_current st) (s_cycle st) Hok (cont_stopper k Hk)) as (xr & rdx & Escan & Sr & Ebond).
   rewrite Escan. cbn [bind]. rewrite Ebond. cbn [bind].
   (* 202-214 *)
-  rewrite (nmon_lin fo i k Hok Hk). cbn [bind]. rewrite Nat2Z.id.
+  rewrite (nmon_lin fo i k Hok (cont_stopper k Hk)). cbn [bind]. rewrite Nat2Z.id.
   (* 218-220 *)
   destruct (parse_graph_base_node fo (l_name i)) as [a|e] eqn:Ea; cbn [bind]; [|reflexivity].
   assert (Ha : ahas (S "node_for_adding") a = false).
@@ -662,6 +667,100 @@ Proof.
     + unfold Rel. cbn. repeat split; try reflexivity; try assumption. discriminate.
     + cbn [m_stack s_recipes]. intros Es H0. rewrite (Hrc1 Es). unfold stack0 in Es. destruct (l_open i); [discriminate|].
       rewrite (Hrc0 eq_refl). now apply H0.
+Qed.
+
+(** the part of one iteration in front of the closing loop (lines 139-266) *)
+Definition node_part (fo : float_oracle) (st : rstate) (pc : ascii) (nm rest : pystr) : res rstate :=
+  '(branching, branch_anchor, recipes) <- opened st pc ;;
+  '(rs, rdx) <- ring_scan (s_current st) rest 0 (clean_st (s_cycle st) []) ;;
+  bond_order <- bond_expr rest rdx ;;
+  '(n_mon, bond_order) <- nmon_expr rest bond_order ;;
+  a <- parse_graph_base_node fo nm ;;
+  recipes <- (if branching then
+                match rev branch_anchor with
+                | [] => Err EIndex
+                | k :: _ => Ok (rec_append k (n_mon, a, s_pbo st) recipes)
+                end
+              else Ok recipes) ;;
+  '(g, current, prev_node, pbo) <-
+     add_nodes (Z.to_nat n_mon) a bond_order (r_ces rs) (s_g st) (s_current st) (s_prev_node st) (s_pbo st) ;;
+  Ok {| s_g := g; s_current := current; s_branch_anchor := branch_anchor; s_recipes := recipes;
+        s_prev_node := prev_node; s_branching := branching; s_cycle := r_cyc rs;
+        s_pbo := pbo; s_attributes := Some a; s_base_anchor := s_base_anchor st |}.
+Lemma node_step_parts fo st pc nm rest :
+  node_step fo st pc nm rest = (st1 <- node_part fo st pc nm rest ;; close_all rest st1).
+Proof.
+  rewrite node_step_eq. unfold node_part.
+  destruct (opened st pc) as [[[br ba] rc]|]; cbn [bind]; [|reflexivity].
+  destruct (ring_scan _ _ _ _) as [[rs rdx]|]; cbn [bind]; [|reflexivity].
+  destruct (bond_expr rest rdx) as [bo|]; cbn [bind]; [|reflexivity].
+  destruct (nmon_expr rest bo) as [[n bo2]|]; cbn [bind]; [|reflexivity].
+  destruct (parse_graph_base_node fo nm) as [a|]; cbn [bind]; [|reflexivity].
+  match goal with |- (bind ?m _ = _) => destruct m as [rc'|] end; cbn [bind]; [|reflexivity].
+  destruct (add_nodes _ _ _ _ _ _ _ _) as [[[[g cu] pn] pb]|]; cbn [bind]; reflexivity.
+Qed.
+(** the node part of a flat item that closes nothing itself, in front of ANY text that ends the
+    look-ahead (the next node, the end, or closing parentheses) *)
+Lemma node_part_lin0 fo i k st x pc :
+  lin_ok fo i = true -> l_close i = None -> stopk k -> Rel st x ->
+  (Ascii.eqb pc "("%char = l_open i) -> (l_open i = true -> exists p, m_prev x = Some p /\ has_node (m_g x) p = true) ->
+  match item_effect fo i x with
+  | Ok x1 => exists st1, node_part fo st pc (l_name i) (lin_tail_str i ++ k) = Ok st1 /\ Rel st1 x1
+                         /\ s_attributes st1 <> None /\ s_pbo st1 = Some (oord (l_bond i))
+                         /\ (m_stack x1 = [] -> (m_stack x = [] -> s_recipes st = []) -> s_recipes st1 = [])
+  | Err e => node_part fo st pc (l_name i) (lin_tail_str i ++ k) = Err e
+  end.
+Proof.
+  intros Hok Ecl Hk (Rg & Rc & Rp & Rcy & Rba & Rbr & Rpb) Hpc Hop.
+  destruct (lin_ok_parts fo i Hok) as (Hn & Hr & Hm & Hc).
+  unfold node_part, item_effect.
+  (* 142-148 *)
+  set (stack0 := if l_open i then m_prev x :: m_stack x else m_stack x).
+  assert (Hopened : exists rc, opened st pc = Ok (negb (is_nil stack0), rev stack0, rc) /\ (l_open i = false -> rc = s_recipes st)).
+  { unfold opened, stack0. rewrite Hpc. destruct (l_open i).
+    - destruct (Hop eq_refl) as (p & Ep & Hp). rewrite Rp, Ep, Rg.
+      unfold node_attrs, has_node in *. destruct (gfind p (m_g x)) as [nr|]; [|discriminate]. cbn [bind].
+      eexists. rewrite Rba. split; [reflexivity|discriminate].
+    - eexists. rewrite Rbr, Rba. split; reflexivity. }
+  destruct Hopened as (rc & -> & Hrc0). cbn [bind].
+  (* 150-200 *)
+  destruct (scan_lin fo i k (s_current st) (s_cycle st) Hok Hk) as (xr & rdx & Escan & Sr & Ebond).
+  rewrite Escan. cbn [bind]. rewrite Ebond. cbn [bind].
+  (* 202-214 *)
+  rewrite (nmon_lin fo i k Hok Hk). cbn [bind]. rewrite Nat2Z.id.
+  (* 218-220 *)
+  destruct (parse_graph_base_node fo (l_name i)) as [a|e] eqn:Ea; cbn [bind]; [|reflexivity].
+  assert (Ha : ahas (S "node_for_adding") a = false).
+  { unfold name_ok in Hn. rewrite Ea in Hn. apply andb_prop in Hn as [_ Hn]. now destruct (ahas _ a). }
+  (* 225-226 *)
+  assert (Hrec : exists rc', (if negb (is_nil stack0) then
+                                match rev (rev stack0) with
+                                | [] => Err EIndex
+                                | k0 :: _ => Ok (rec_append k0 (Z.of_nat (mult_val (l_mult i)), a, s_pbo st) rc)
+                                end else Ok rc) = Ok rc' /\ (stack0 = [] -> rc' = rc)).
+  { rewrite rev_involutive. destruct stack0; cbn; eexists; (split; [reflexivity|]); [reflexivity|discriminate]. }
+  destruct Hrec as (rc' & -> & Hrc1). cbn [bind].
+  (* 228-250 *)
+  rewrite Rcy, Rc in Sr. rewrite Rg, Rc, Rp.
+  assert (Hpp : forall p, m_prev x = Some p -> s_pbo st = Some (m_pend x)) by (intros p Hp'; now destruct (Rpb p Hp')).
+  assert (Hadd : add_nodes (mult_val (l_mult i)) a (oord (l_bond i)) (r_ces xr) (m_g x) (m_next x) (m_prev x) (s_pbo st)
+               = (let '(g2, nx, pv) := m_copies (mult_val (l_mult i)) a (m_g x) (m_next x) (m_prev x) (m_pend x) in
+                  g3 <- add_cycle_edges g2 (r_ces xr) ;; Ok (g3, nx, pv, Some (oord (l_bond i))))).
+  { destruct (l_mult i) as [ds|] eqn:Em; cbn [mult_val].
+    - destruct Hm as (Er & Hd & H1). rewrite Er in Sr. cbn [spec_rings] in Sr. injection Sr as _ Eces.
+      rewrite Eces. rewrite (add_nodes_copies _ a _ _ _ _ _ (m_pend x) Ha) by (intros _; exact Hpp).
+      destruct (m_copies (digits_nat ds) a (m_g x) (m_next x) (m_prev x) (m_pend x)) as [[g2 nx] pv].
+      cbn [add_cycle_edges bind]. destruct (digits_nat ds); [lia|reflexivity].
+    - now apply add_nodes_one. }
+  rewrite Hadd. clear Hadd.
+  assert (Hn1 : (1 <= mult_val (l_mult i))%nat) by (unfold mult_val; destruct (l_mult i); [tauto|lia]).
+  destruct (m_copies_prev (mult_val (l_mult i)) a (m_g x) (m_next x) (m_prev x) (m_pend x) Hn1) as (g2 & nx & last & -> & _).
+  pose proof (f_equal snd Sr) as Eces. cbn [snd] in Eces. pose proof (f_equal fst Sr) as Ecyc. cbn [fst] in Ecyc.
+  rewrite Eces. destruct (add_cycle_edges g2 _) as [g3|e]; cbn [bind]; [|reflexivity].
+  rewrite Ecl. eexists. split; [reflexivity|]. split; [|split; [discriminate|split; [reflexivity|]]].
+  - unfold Rel. cbn. repeat split; try reflexivity; try assumption. discriminate.
+  - cbn [m_stack s_recipes]. intros Es H0. rewrite (Hrc1 Es). unfold stack0 in Es. destruct (l_open i); [discriminate|].
+    rewrite (Hrc0 eq_refl). now apply H0.
 Qed.
 
 (** ** invariants of the machine that the induction needs *)
